@@ -666,7 +666,7 @@ class LZCompressionVectorizer(BaseEstimator, TransformerMixin):
             if self.max_columns <= 1:
                 raise ValueError("max_columns must be at least 2")
             random_state = check_random_state(self.random_state)
-            self.hash_function_ = make_hash(self.max_columns, np.int32(random_state.randint(MAX_INT32)))
+            self.hash_function_ = make_hash(self.max_columns, int(random_state.randint(MAX_INT32)))
             self.column_label_dictionary_ = numba.typed.Dict.empty(numba.types.int32, numba.types.int64)
         else:
             self.hash_function_ = self.hash_function
